@@ -2677,6 +2677,11 @@ impl Connection {
 
                             // Discard already-queued frames
                             self.spaces[SpaceId::Data].pending = Retransmits::default();
+                            // A connection-level limit raised before the rejection was announced in
+                            // a frame that is lost now (sent in 0-RTT or dropped just above)
+                            if self.streams.flow_control_adjusted() {
+                                self.spaces[SpaceId::Data].pending.max_data = true;
+                            }
                             // ...and application datagrams queued before the rejection: they are
                             // early data too, and the new parameters may not even admit them
                             self.datagrams.outgoing.clear();
